@@ -3,6 +3,7 @@ package c10
 import (
 	"fmt"
 	"math"
+	"reflect"
 	"sort"
 
 	"github.com/unixpickle/model3d/model3d"
@@ -52,11 +53,11 @@ func genOp3(t *rapid.T, kind string) op3 {
 	switch kind {
 	case "decimate":
 		fa := 0.0
-		if (gen.Int(t, 0, 1, "fa.set") == 1) {
+		if gen.Int(t, 0, 1, "fa.set") == 1 {
 			fa = gen.LogF(t, 0.02, 3, "featureAngle")
 		}
 		mar := 0.0
-		if (gen.Int(t, 0, 1, "mar.set") == 1) {
+		if gen.Int(t, 0, 1, "mar.set") == 1 {
 			mar = gen.LogF(t, 1e-3, 0.6, "minAspect")
 		}
 		o.F = []float64{fa, gen.LogF(t, 1e-4, 0.5, "planeDist"), gen.LogF(t, 1e-4, 0.5, "boundaryDist"), mar}
@@ -97,7 +98,7 @@ func genOp3(t *rapid.T, kind string) op3 {
 		cd, cw, cf := 0.0, 0.0, 0.0
 		if gen.Int(t, 0, 2, "cw.set") == 0 {
 			cw = gen.LogF(t, 0.01, 2, "cweight")
-			if (gen.Int(t, 0, 1, "cd.set") == 1) {
+			if gen.Int(t, 0, 1, "cd.set") == 1 {
 				cd = gen.LogF(t, 1e-3, 0.1, "cdist")
 			}
 		}
@@ -131,6 +132,18 @@ func step3(in []kit.Tri, rep0 *kit.TopoReport, op op3, o *kit.Obs) (out []kit.Tr
 	mesh := m3.MeshFromTris(in)
 	what := op.K
 	o.Label("op:" + op.K)
+	if op.K != "subdivider" { // Subdivider.Subdivide is the one operation documented to work in place
+		// every other operation returns a new mesh (or a map) and leaves the one it was applied to alone:
+		// a second level of detail, or a before/after comparison, is made from the same source
+		defer func() {
+			if err != nil {
+				return
+			}
+			if after := canonTris(m3.Tris(mesh)); !reflect.DeepEqual(after, canonTris(in)) {
+				err = fmt.Errorf("%s changed the mesh it was applied to: %d faces before, %d after, %s", what, len(in), len(after), firstTriDiff(canonTris(in), after))
+			}
+		}()
+	}
 
 	switch op.K {
 	case "decimate":
@@ -982,4 +995,13 @@ func checkOps3(c case3, o *kit.Obs) error {
 		o.NonTrivial()
 	}
 	return nil
+}
+
+func firstTriDiff(a, b []kit.Tri) string {
+	for i := 0; i < len(a) && i < len(b); i++ {
+		if a[i] != b[i] {
+			return fmt.Sprintf("first difference (canonical order) %v -> %v", a[i], b[i])
+		}
+	}
+	return "one is a prefix of the other"
 }
